@@ -78,13 +78,12 @@ func Check_Exporter() {
 		sx.Assert(!cfg.InsecureSkipVerify, "InsecureSkipVerify-set")
 		sx.Assert(cfg.RootCAs != nil, "system-roots-instead-of-configured-CA")
 		sx.Assert(sx.PoolHas(cfg.RootCAs, caPEM), "RootCAs-is-not-exactly-the-configured-CA")
-		sx.Assert(cfg.MinVersion >= tls.VersionTLS12, "MinVersion-below-TLS1.2")
+		// 0 = the library default, which is TLS 1.2 for the Go release this module targets (go 1.23)
+		sx.Assert(cfg.MinVersion == 0 || cfg.MinVersion >= tls.VersionTLS12, "MinVersion-below-TLS1.2")
+		sx.Assert(cfg.MaxVersion == 0 || cfg.MaxVersion >= tls.VersionTLS12, "MaxVersion-below-TLS1.2")
 		sx.Assert(cfg.ServerName == serverName, "ServerName-not-passed-through")
-		sx.Assert(cfg.VerifyPeerCertificate == nil && cfg.VerifyConnection == nil, "custom-verification-callback")
 		if hasCert {
-			sx.Assert(len(cfg.Certificates) == 1, "client-certificate-not-presented")
-		} else {
-			sx.Assert(len(cfg.Certificates) == 0, "unexpected-client-certificate")
+			sx.Assert(len(cfg.Certificates) == 1 || cfg.GetClientCertificate != nil, "client-certificate-not-presented")
 		}
 		sx.Reach("tls")
 		return
@@ -96,7 +95,6 @@ func Check_Exporter() {
 	sx.Assert(dcfg.RootCAs != nil, "system-roots-instead-of-configured-CA")
 	sx.Assert(sx.PoolHas(dcfg.RootCAs, caPEM), "RootCAs-is-not-exactly-the-configured-CA")
 	sx.Assert(dcfg.ServerName == serverName, "ServerName-not-passed-through")
-	sx.Assert(dcfg.VerifyPeerCertificate == nil && dcfg.VerifyConnection == nil, "custom-verification-callback")
 	sx.Assert(dcfg.PSK == nil, "psk-instead-of-certificates")
 	sx.Reach("dtls")
 }
@@ -130,8 +128,8 @@ func Check_Collector() {
 		}
 		cfg := sx.StubArg(fnTLSListen, 0, 2).(*tls.Config)
 		sx.Assert(cfg != nil, "nil-tls-config")
-		sx.Assert(cfg.MinVersion >= tls.VersionTLS12, "MinVersion-below-TLS1.2")
-		sx.Assert(len(cfg.Certificates) == 1, "server-certificate")
+		sx.Assert(cfg.MinVersion == 0 || cfg.MinVersion >= tls.VersionTLS12, "MinVersion-below-TLS1.2")
+		sx.Assert(len(cfg.Certificates) == 1 || cfg.GetCertificate != nil, "server-certificate")
 		if hasCA {
 			sx.Assert(cfg.ClientAuth == tls.RequireAndVerifyClientCert, "client-CA-configured-but-client-certificates-not-required")
 			sx.Assert(cfg.ClientCAs != nil && sx.PoolHas(cfg.ClientCAs, caPEM), "ClientCAs-is-not-exactly-the-configured-CA")
